@@ -30,6 +30,7 @@ set_option linter.unusedSectionVars false
 
 namespace PP
 open IsoPoly
+namespace Iso
 
 /-! ## arrays -/
 
@@ -46,6 +47,8 @@ theorem getD_set! {α : Type} (a : Array α) (i j : Nat) (v d : α) :
     · simp [h2]
   · simp [h]
 
+
+/-! ## the table of powers of `z` and one map value -/
 
 /-- one iteration (`idx = k + 1`) of the loop that fills the table -/
 def zpStep (z2 : F) (zp : Array F) (k : Nat) : Array F :=
@@ -158,3 +161,292 @@ theorem isoMapval_spec (z x : F) (n : Nat) (cs : List F) (hn : cs.length ≤ n) 
     rw [e1, e2, ← pow_mul]
     ring
 
+
+/-! ## the evaluation -/
+
+/-- the shape of the coefficient tables at the two call sites of `eval_iso`
+    (`xden` one shorter than `xnum`, `yden` as long as `ynum`, `ynum` the longest, at most 16: the
+    Rust scratch arrays have 16 and 15 entries) -/
+structure IsoShape (xnum xden ynum yden : List F) : Prop where
+  xnum_len : xnum.length = xden.length + 1
+  yden_len : yden.length = ynum.length
+  xden_pos : 1 ≤ xden.length
+  x_le_y : xnum.length ≤ ynum.length
+  y_le : ynum.length ≤ 16
+
+variable {xnum xden ynum yden : List F}
+
+/-- `eval_iso` in closed form: the four homogenised polynomials and the recombination -/
+theorem evalIso_eq (sh : IsoShape xnum xden ynum yden) (p : Jac F) :
+    evalIso xnum xden ynum yden p =
+      let m0 := hEval xnum p.x (p.z ^ 2)
+      let m1 := hEval xden p.x (p.z ^ 2) * p.z ^ 2
+      let m2 := hEval ynum p.x (p.z ^ 2) * p.y
+      let m3 := hEval yden p.x (p.z ^ 2) * p.z * p.z ^ 2
+      ⟨m0 * m3 * (m1 * m3), (m1 * m3) ^ 2 * m2 * m1, m1 * m3⟩ := by
+  obtain ⟨h1, h2, h3, h4, h5⟩ := sh
+  unfold evalIso
+  dsimp only
+  rw [isoMapval_spec _ _ _ xnum (by omega) (by omega), isoMapval_spec _ _ _ xden (by omega) (by omega),
+    isoMapval_spec _ _ _ ynum (by omega) (by omega), isoMapval_spec _ _ _ yden (by omega) (by omega),
+    isoZpows_spec _ _ 0 (by omega) (Or.inr (by omega)), LawfulFieldOps.sq_eq]
+  rw [Jac.mk.injEq]
+  refine ⟨rfl, by ring, rfl⟩
+
+/-- C16.3c: the identity (any triple with `z = 0`) is sent to the identity; no shape needed -/
+theorem iso_identity (p : Jac F) (hz : p.z = 0) : (evalIso xnum xden ynum yden p).z = 0 := by
+  unfold evalIso
+  dsimp only
+  rw [hz]; ring
+
+/-- the four map values at a finite point, as multiples of the values of the four polynomials at the
+    affine abscissa `x / z²` -/
+theorem mapvals_of_z_ne (sh : IsoShape xnum xden ynum yden) (p : Jac F) (hz : p.z ≠ 0) :
+    ∃ c e : F, c ≠ 0 ∧ e ≠ 0 ∧
+      hEval xnum p.x (p.z ^ 2) = c * evalP xnum (p.x / p.z ^ 2) ∧
+      hEval xden p.x (p.z ^ 2) * p.z ^ 2 = c * evalP xden (p.x / p.z ^ 2) ∧
+      hEval ynum p.x (p.z ^ 2) = e * evalP ynum (p.x / p.z ^ 2) ∧
+      hEval yden p.x (p.z ^ 2) = e * evalP yden (p.x / p.z ^ 2) := by
+  obtain ⟨h1, h2, h3, h4, h5⟩ := sh
+  have hw : p.z ^ 2 ≠ 0 := pow_ne_zero 2 hz
+  refine ⟨(p.z ^ 2) ^ xden.length, (p.z ^ 2) ^ (ynum.length - 1), pow_ne_zero _ hw, pow_ne_zero _ hw,
+    ?_, ?_, ?_, ?_⟩
+  · rw [hEval_eq_evalP _ _ hw, h1, Nat.add_sub_cancel]
+  · rw [hEval_mul_eq _ _ hw]
+  · rw [hEval_eq_evalP _ _ hw]
+  · rw [hEval_eq_evalP _ _ hw, h2]
+
+/-- C16.3a: at a finite point that is not a pole, the output is a finite point whose affine
+    coordinates are the values of the rational map
+    `(x, y) ↦ (XN(x)/XD(x), y · YN(x)/YD(x))` at the affine input `(X/Z², Y/Z³)`. -/
+theorem iso_affine (sh : IsoShape xnum xden ynum yden) (p : Jac F) (hz : p.z ≠ 0)
+    (hxd : evalP xden (p.x / p.z ^ 2) ≠ 0) (hyd : evalP yden (p.x / p.z ^ 2) ≠ 0) :
+    (evalIso xnum xden ynum yden p).z ≠ 0 ∧
+    (evalIso xnum xden ynum yden p).x / (evalIso xnum xden ynum yden p).z ^ 2 =
+      evalP xnum (p.x / p.z ^ 2) / evalP xden (p.x / p.z ^ 2) ∧
+    (evalIso xnum xden ynum yden p).y / (evalIso xnum xden ynum yden p).z ^ 3 =
+      (p.y / p.z ^ 3) * evalP ynum (p.x / p.z ^ 2) / evalP yden (p.x / p.z ^ 2) := by
+  obtain ⟨c, e, hc, he, e0, e1, e2, e3⟩ := mapvals_of_z_ne sh p hz
+  rw [evalIso_eq sh]
+  dsimp only
+  rw [e0, e1, e2, e3]
+  generalize evalP xnum (p.x / p.z ^ 2) = XN at *
+  generalize evalP xden (p.x / p.z ^ 2) = XD at *
+  generalize evalP ynum (p.x / p.z ^ 2) = YN at *
+  generalize evalP yden (p.x / p.z ^ 2) = YD at *
+  have hz1 : c * XD * (e * YD * p.z * p.z ^ 2) ≠ 0 := by
+    simp [hc, he, hz, hxd, hyd]
+  refine ⟨hz1, ?_, ?_⟩
+  · field_simp
+  · field_simp
+
+/-- C16.3b/d: the output is the identity exactly for the identity and for the poles of the map
+    (the kernel of the isogeny) -/
+theorem iso_z_eq_zero_iff (sh : IsoShape xnum xden ynum yden) (p : Jac F) :
+    (evalIso xnum xden ynum yden p).z = 0 ↔
+      p.z = 0 ∨ evalP xden (p.x / p.z ^ 2) = 0 ∨ evalP yden (p.x / p.z ^ 2) = 0 := by
+  by_cases hz : p.z = 0
+  · simp [iso_identity p hz, hz]
+  · obtain ⟨c, e, hc, he, e0, e1, e2, e3⟩ := mapvals_of_z_ne sh p hz
+    rw [evalIso_eq sh]
+    dsimp only
+    rw [e1, e3]
+    simp [hc, he, hz]
+
+/-- C16.3d: kernel points (poles of the rational map) are sent to the identity -/
+theorem iso_kernel (sh : IsoShape xnum xden ynum yden) (p : Jac F) (_hz : p.z ≠ 0)
+    (h : evalP xden (p.x / p.z ^ 2) = 0 ∨ evalP yden (p.x / p.z ^ 2) = 0) :
+    (evalIso xnum xden ynum yden p).z = 0 :=
+  (iso_z_eq_zero_iff sh p).mpr (Or.inr h)
+
+/-- C16.3e, representation independence: rescaling the input representative by `l` rescales the
+    output representative by `μ = l ^ (2·|xden| + 2·|ynum| + 1)` -/
+theorem iso_homogeneous (sh : IsoShape xnum xden ynum yden) (p : Jac F) (l : F) :
+    evalIso xnum xden ynum yden ⟨l ^ 2 * p.x, l ^ 3 * p.y, l * p.z⟩ =
+      ⟨(l ^ (2 * xden.length + 2 * ynum.length + 1)) ^ 2 * (evalIso xnum xden ynum yden p).x,
+       (l ^ (2 * xden.length + 2 * ynum.length + 1)) ^ 3 * (evalIso xnum xden ynum yden p).y,
+       l ^ (2 * xden.length + 2 * ynum.length + 1) * (evalIso xnum xden ynum yden p).z⟩ := by
+  rw [evalIso_eq sh, evalIso_eq sh]
+  dsimp only
+  obtain ⟨h1, h2, h3, h4, h5⟩ := sh
+  rw [mul_pow l p.z 2, hEval_smul, hEval_smul, hEval_smul, hEval_smul, h1, h2, Nat.add_sub_cancel]
+  obtain ⟨k, hk⟩ : ∃ k, xden.length = k + 1 := ⟨xden.length - 1, by omega⟩
+  obtain ⟨m, hm⟩ : ∃ m, ynum.length = m + 1 := ⟨ynum.length - 1, by omega⟩
+  rw [hk, hm, Nat.add_sub_cancel, Nat.add_sub_cancel]
+  rw [Jac.mk.injEq]
+  refine ⟨by ring, by ring, by ring⟩
+
+/-- the equivalence `(μ²X, μ³Y, μZ) ~ (X, Y, Z)` on finite points is equality of affine coordinates -/
+theorem iso_homogeneous_affine (sh : IsoShape xnum xden ynum yden) (p : Jac F) (l : F) (hl : l ≠ 0) :
+    ((evalIso xnum xden ynum yden ⟨l ^ 2 * p.x, l ^ 3 * p.y, l * p.z⟩).z = 0 ↔
+      (evalIso xnum xden ynum yden p).z = 0) ∧
+    (evalIso xnum xden ynum yden ⟨l ^ 2 * p.x, l ^ 3 * p.y, l * p.z⟩).x /
+        (evalIso xnum xden ynum yden ⟨l ^ 2 * p.x, l ^ 3 * p.y, l * p.z⟩).z ^ 2 =
+      (evalIso xnum xden ynum yden p).x / (evalIso xnum xden ynum yden p).z ^ 2 ∧
+    (evalIso xnum xden ynum yden ⟨l ^ 2 * p.x, l ^ 3 * p.y, l * p.z⟩).y /
+        (evalIso xnum xden ynum yden ⟨l ^ 2 * p.x, l ^ 3 * p.y, l * p.z⟩).z ^ 3 =
+      (evalIso xnum xden ynum yden p).y / (evalIso xnum xden ynum yden p).z ^ 3 := by
+  rw [iso_homogeneous sh]
+  dsimp only
+  have hμ : l ^ (2 * xden.length + 2 * ynum.length + 1) ≠ 0 := pow_ne_zero _ hl
+  generalize l ^ (2 * xden.length + 2 * ynum.length + 1) = μ at *
+  refine ⟨by simp [hμ], ?_, ?_⟩
+  · by_cases h0 : (evalIso xnum xden ynum yden p).z = 0
+    · simp [h0]
+    · field_simp
+  · by_cases h0 : (evalIso xnum xden ynum yden p).z = 0
+    · simp [h0]
+    · field_simp
+
+/-- C16.4: if the four polynomials satisfy the isogeny identity, a point of `y² = x³ + A'x + B'`
+    (in any representation; any triple with `z = 0` counts as the identity) is sent to a triple
+    that satisfies the homogeneous equation of `y² = x³ + b`. -/
+theorem iso_onCurve (sh : IsoShape xnum xden ynum yden) (A' B' b : F)
+    (hident : ∀ x : F, (x ^ 3 + A' * x + B') * evalP ynum x ^ 2 * evalP xden x ^ 3 =
+      (evalP xnum x ^ 3 + b * evalP xden x ^ 3) * evalP yden x ^ 2)
+    (p : Jac F) (hp : p.z = 0 ∨ p.y ^ 2 = p.x ^ 3 + A' * p.x * p.z ^ 4 + B' * p.z ^ 6) :
+    (evalIso xnum xden ynum yden p).y ^ 2 =
+      (evalIso xnum xden ynum yden p).x ^ 3 + b * (evalIso xnum xden ynum yden p).z ^ 6 := by
+  by_cases hz : p.z = 0
+  · rw [evalIso_eq sh]
+    dsimp only
+    rw [hz]; ring
+  · have hcurve := hp.resolve_left hz
+    obtain ⟨c, e, hc, he, e0, e1, e2, e3⟩ := mapvals_of_z_ne sh p hz
+    have hid := hident (p.x / p.z ^ 2)
+    rw [evalIso_eq sh]
+    dsimp only
+    rw [e0, e1, e2, e3]
+    generalize evalP xnum (p.x / p.z ^ 2) = XN at *
+    generalize evalP xden (p.x / p.z ^ 2) = XD at *
+    generalize evalP ynum (p.x / p.z ^ 2) = YN at *
+    generalize evalP yden (p.x / p.z ^ 2) = YD at *
+    have hx : p.x = (p.x / p.z ^ 2) * p.z ^ 2 := by field_simp
+    generalize p.x / p.z ^ 2 = x' at *
+    -- `y² = z⁶ (x'³ + A'x' + B')`
+    have hy : p.y ^ 2 = p.z ^ 6 * (x' ^ 3 + A' * x' + B') := by rw [hcurve, hx]; ring
+    -- `m1³ m2² = m3² (m0³ + b m1³)`
+    have key : (c * XD) ^ 3 * (e * YN * p.y) ^ 2 =
+        (e * YD * p.z * p.z ^ 2) ^ 2 * ((c * XN) ^ 3 + b * (c * XD) ^ 3) := by
+      linear_combination (c ^ 3 * XD ^ 3 * e ^ 2 * YN ^ 2) * hy + (c ^ 3 * e ^ 2 * p.z ^ 6) * hid
+    linear_combination ((c * XD) ^ 3 * (e * YD * p.z * p.z ^ 2) ^ 4) * key
+
+end generic
+
+/-! ## the polynomial identity as an identity of coefficient lists -/
+
+/-- `(x³ + A'x + B')·YN²·XD³ = (XN³ + b·XD³)·YD²` as an equality of coefficient lists, computed with
+    whatever `+ * 0 1` the type carries (for `Fq`, `Fq2`: the model's) -/
+def IsoIdent {G : Type} [Add G] [Mul G] [Zero G] [One G] (A' B' b : G) (xnum xden ynum yden : List G) :
+    Prop :=
+  mulP (mulP [B', A', 0, 1] (sqP ynum)) (cubeP xden) =
+    mulP (addP (cubeP xnum) (scaleP b (cubeP xden))) (sqP yden)
+
+instance {G : Type} [Add G] [Mul G] [Zero G] [One G] [DecidableEq G] (A' B' b : G)
+    (xnum xden ynum yden : List G) : Decidable (IsoIdent A' B' b xnum xden ynum yden) := by
+  unfold IsoIdent; infer_instance
+
+section generic
+variable {F : Type} [Field F]
+
+/-- the list identity gives the pointwise identity (the list multiplier is verified) -/
+theorem IsoIdent.eval {A' B' b : F} {xnum xden ynum yden : List F}
+    (h : IsoIdent A' B' b xnum xden ynum yden) (x : F) :
+    (x ^ 3 + A' * x + B') * evalP ynum x ^ 2 * evalP xden x ^ 3 =
+      (evalP xnum x ^ 3 + b * evalP xden x ^ 3) * evalP yden x ^ 2 := by
+  have := congrArg (fun l => evalP l x) h
+  simp only [evalP_mulP, evalP_addP, evalP_scaleP, evalP_sqP, evalP_cubeP, evalP_cons, evalP_nil] at this
+  linear_combination this
+
+end generic
+
+/-! ## G1: the 11-isogeny -/
+
+/-- the coefficient tables of `isogeny/g1.rs`, decoded -/
+def iso11XNum : List Fq := Gen.ISO11_XNUM.map Fq.ofMont
+def iso11XDen : List Fq := Gen.ISO11_XDEN.map Fq.ofMont
+def iso11YNum : List Fq := Gen.ISO11_YNUM.map Fq.ofMont
+def iso11YDen : List Fq := Gen.ISO11_YDEN.map Fq.ofMont
+
+theorem iso11_eq (p : Jac Fq) : iso11 p = evalIso iso11XNum iso11XDen iso11YNum iso11YDen p := rfl
+
+theorem iso11_lengths : iso11XNum.length = 12 ∧ iso11XDen.length = 11 ∧ iso11YNum.length = 16 ∧
+    iso11YDen.length = 16 := by decide
+
+theorem iso11_shape : IsoShape iso11XNum iso11XDen iso11YNum iso11YDen := by
+  obtain ⟨h1, h2, h3, h4⟩ := iso11_lengths
+  exact ⟨by omega, by omega, by omega, by omega, by omega⟩
+
+/-- the degree-63 identity over `Fq`, by kernel computation on the coefficient lists -/
+theorem iso11_ident : IsoIdent g1EllpA g1EllpB g1Codec.b iso11XNum iso11XDen iso11YNum iso11YDen := by
+  decide +kernel
+
+/-- the denominators are monic of degrees 10 and 15, the numerators have degrees 11 and 15 -/
+theorem iso11_leading : iso11XDen.getLast? = some 1 ∧ iso11YDen.getLast? = some 1 ∧
+    iso11XNum.getLast? ≠ some 0 ∧ iso11YNum.getLast? ≠ some 0 := by decide +kernel
+
+/-! ## G2: the 3-isogeny -/
+
+def iso3XNum : List Fq2 := Gen.ISO3_XNUM.map Fq2.ofMont
+def iso3XDen : List Fq2 := Gen.ISO3_XDEN.map Fq2.ofMont
+def iso3YNum : List Fq2 := Gen.ISO3_YNUM.map Fq2.ofMont
+def iso3YDen : List Fq2 := Gen.ISO3_YDEN.map Fq2.ofMont
+
+theorem iso3_eq (p : Jac Fq2) : iso3 p = evalIso iso3XNum iso3XDen iso3YNum iso3YDen p := rfl
+
+theorem iso3_lengths : iso3XNum.length = 4 ∧ iso3XDen.length = 3 ∧ iso3YNum.length = 4 ∧
+    iso3YDen.length = 4 := by decide
+
+theorem iso3_shape : IsoShape iso3XNum iso3XDen iso3YNum iso3YDen := by
+  obtain ⟨h1, h2, h3, h4⟩ := iso3_lengths
+  exact ⟨by omega, by omega, by omega, by omega, by omega⟩
+
+/-- the degree-15 identity over `Fq2`, computed by the kernel with the model's `Fq2` arithmetic
+    (Karatsuba `Fq2.mul`, …) -/
+theorem iso3_ident : IsoIdent g2EllpA g2EllpB g2Codec.b iso3XNum iso3XDen iso3YNum iso3YDen := by
+  decide +kernel
+
+theorem iso3_leading : iso3XDen.getLast? = some 1 ∧ iso3YDen.getLast? = some 1 ∧
+    iso3XNum.getLast? ≠ some 0 ∧ iso3YNum.getLast? ≠ some 0 := by decide +kernel
+
+/-! ## `Fq2`: a field structure that agrees with the model's operations
+
+The `Field Fq2` structure is built in another module.  The theorems about `iso3` take it as an
+instance argument; since `iso3` is *defined* with the model's `+ * 0` (`Fq2.instAdd`, …), they also
+take the fact that the `+ * 0 1` of the field structure are those.  For a field structure defined on
+the model's operations this is `⟨rfl, rfl, rfl, rfl⟩`. -/
+
+/-- the `+` of a field structure, as a bare notation-class instance -/
+@[reducible] def addOf (F : Type) [Field F] : Add F := inferInstance
+/-- the `*` of a field structure -/
+@[reducible] def mulOf (F : Type) [Field F] : Mul F := inferInstance
+/-- the `0` of a field structure -/
+@[reducible] def zeroOf (F : Type) [Field F] : Zero F := inferInstance
+/-- the `1` of a field structure -/
+@[reducible] def oneOf (F : Type) [Field F] : One F := inferInstance
+
+/-- the field structure `fld` on `Fq2` has the model's `+ * 0 1` -/
+structure Fq2FieldAgrees (fld : Field Fq2) : Prop where
+  add : addOf Fq2 = Fq2.instAdd
+  mul : mulOf Fq2 = Fq2.instMul
+  zero : zeroOf Fq2 = Fq2.instZero
+  one : oneOf Fq2 = Fq2.instOne
+
+/-- `fq2_align h` (`h : Fq2FieldAgrees fld`): replace the model's `+ * 0 1` on `Fq2` by those of the
+    field structure, everywhere in the goal and the context -/
+macro "fq2_align " h:term : tactic => `(tactic| (
+  obtain ⟨ha, hm, hz, ho⟩ := $h
+  generalize Fq2.instAdd = ia at *
+  generalize Fq2.instMul = im at *
+  generalize Fq2.instZero = iz at *
+  generalize Fq2.instOne = io at *
+  subst ha hm hz ho))
+
+/-! ## the model's `is_zero` -/
+
+theorem jac_isZero_iff {F : Type} [Field F] [FieldOps F] [LawfulFieldOps F] (p : Jac F) :
+    p.isZero = true ↔ p.z = 0 := by
+  unfold Jac.isZero; exact LawfulFieldOps.isZero_iff _
+
+end Iso
+end PP
